@@ -59,6 +59,14 @@ func (e *SpecEnv) lookup(name string) (Term, bool) {
 		return t, true
 	}
 	u := e.u
+	if strings.HasPrefix(name, "rangeidx") {
+		var n int
+		if _, err := fmt.Sscanf(name, "rangeidx%d", &n); err == nil {
+			if v, ok := u.rangeVars[n]; ok {
+				return u.readVar(e.curState(), v, token.NoPos), true
+			}
+		}
+	}
 	// Go locals of the unit (own contracts only)
 	if e.own && u.decl != nil && e.scopePos.IsValid() {
 		if sc := u.pkg.Types.Scope().Innermost(e.scopePos); sc != nil {
@@ -295,6 +303,13 @@ func (e *SpecEnv) field(base Term, name string, at ast.Node) Term {
 		return e.fail("field %s of untyped value", name)
 	}
 	obj, path, _ := types.LookupFieldOrMethod(base.T, true, e.pkg, name)
+	if f, ok := obj.(*types.Func); ok {
+		mv := "mv_" + sanitize(f.FullName())
+		rs := u.c.sortOf(base.T)
+		u.c.declareFun(mv, "("+rs+") Int")
+		sig := f.Type().(*types.Signature)
+		return Term{S: fmt.Sprintf("(%s %s)", mv, base.S), T: types.NewSignatureType(nil, nil, nil, sig.Params(), sig.Results(), sig.Variadic())}
+	}
 	if _, ok := obj.(*types.Var); !ok {
 		return e.fail("no field %s in %s", name, base.T)
 	}
@@ -412,6 +427,16 @@ func (e *SpecEnv) call(x *ast.CallExpr) Term {
 			return Term{S: or(eq(a.S, b.S), fmt.Sprintf("(errwraps %s %s)", a.S, b.S)), T: types.Typ[types.Bool]}
 		case "unfold":
 			return e.unfold(x)
+		case "fsize":
+			// ghost size of the file behind an io.ReaderAt
+			a := e.eval(x.Args[0])
+			u.declareReaderGhost()
+			return Term{S: "(rd.size " + a.S + ")", T: types.Typ[types.Int]}
+		case "fbyte":
+			a := e.eval(x.Args[0])
+			i := e.eval(x.Args[1])
+			u.declareReaderGhost()
+			return Term{S: fmt.Sprintf("(select (rd.content %s) %s)", a.S, u.toIdxSpec(i)), T: types.Typ[types.Uint8]}
 		case "held":
 			a := e.eval(x.Args[0])
 			return Term{S: e.u.heldTerm(e.curState(), a.S), Spec: "Int"}
